@@ -46,6 +46,9 @@ func TestInspect(t *testing.T) {
 		for i, d := range bm.Domains {
 			dis, _ := d.Disassembler()
 			fmt.Printf("--- p%d R=%d N=%d M=%d O=%d L=%d\n%s", i, d.R, d.N, d.M, d.O, d.L, dis)
+			if len(d.Data.Vars) > 0 {
+				fmt.Println("    rom data:", d.Data.Vars)
+			}
 		}
 		out, sent, err := simulate(bm, gen.Env{In: c.In, InGap: c.InGap, OutStall: c.OutStall}, c.Ticks)
 		fmt.Println("machine:", out, "sent", sent, "err", err)
